@@ -120,7 +120,9 @@ HCallB == R(<<"m","h">>, <<"b">>, "call")
 \* every two-level nesting of list / tuple / dict around a literal or an evaluated reference
 Wrap(kind, v) == IF kind = "dict" THEN <<"dict", << <<L1, v>> >>>> ELSE <<kind, <<v, L2>>>>
 Nest2 == { Wrap(o, Wrap(i, leaf)) : o \in {"list", "tuple", "dict"}, i \in {"list", "tuple", "dict"}, leaf \in {L1, GCall} }
+GCallB == R(<<"m","g">>, <<"b">>, "call")
 RefValsF == Nest2 \cup { L1, GCall, GCallA, GBare, GBareA, HCall,
+              <<"dict", << <<GCallA, L1>>, <<GCallB, L2>> >>>>,       \* references as dict keys: two scopes, two entries
               <<"list", <<GCall, L1, GCall>>>>,
               <<"dict", << <<L1, <<"tuple", <<GCallA, HCallB>>>>>> >>>>,
               <<"tuple", << <<"list", <<GBare>>>>, GCall >>>> }
